@@ -13,7 +13,7 @@ RULE = (
     "(16-bit safe prime 65267, key_length 2 and 4): EVERY 2-byte ephemeral private key x group keys x hashes; DH RFC5114 group: 13 structured ephemeral keys "
     "x 4 hashes x 4 group keys; ECDH P-256/P-384: every ephemeral scalar 1..N plus {n-1,n-2,2^(bits-1)} x group keys x hashes. Each case: "
     "GroupKeyEnvelope.new_kek() on the encrypting side and get_kek(key_identifier) on the seed-holding side must both equal the reference KEK, and key_info must "
-    "equal the reference fixed-width public-key / nonce encoding. Distinct by (config, group key, ephemeral); counts of leading-zero shared secrets / coordinates "
+    "equal the reference fixed-width public-key / nonce encoding. A cross-hash part re-uses the same L2 seed and peer key under each KDF hash in all 24 orders within one process (state kept between calls must not leak). Distinct by (config, group key, ephemeral); counts of leading-zero shared secrets / coordinates "
     "are measured and the run is vacuous if the small-group (and, thorough, the EC) counts are 0."
 )
 ASSUME = ["os.urandom supplies the ephemeral private key / nonce (if the script is not consumed the check falls back to the decrypt-side reference only)", "ref/gkdi + ref/ec calibrated (Windows vectors, cryptography point multiplication)"]
@@ -28,7 +28,7 @@ SD = dtyp.target_sd(dtyp.Sid(1, 5, (21, 1, 2, 3, 1105)))
 
 
 def shards(tier: str, seed: int):
-    out: t.List[t.Any] = []
+    out: t.List[t.Any] = [["xhash", alg] for alg in ("DHsmall", "DH", "ECDH_P256", "ECDH_P384", "nonce")]
     for h in HASHES:
         out.append(["nonce", h])
         out.append(["dhbig", h])
@@ -215,10 +215,66 @@ def shard_ec(G, curve, h, g0, g1, kmax, seed, acc) -> None:
     acc.sample({"mode": alg, "hash": h, "ephemeral_scalars": f"1..{kmax} + n-1, n-2, 2^{bits-1}", "group_keys": [g0, g1]})
 
 
+def shard_xhash(G, alg: str, seed: int, acc) -> None:
+    """the SAME L2 seed / peer key material is used under each KDF hash in turn, in every order, within one process"""
+    import itertools
+
+    d = seams.Drbg(("C03x", seed, alg))
+    seeds = [d.bytes(64) for _ in range(2)]
+    n = 0
+    for order in itertools.permutations(HASHES):
+        for s_i, l2seed in enumerate(seeds):
+            for h in order:
+                case = ["xhash", alg, list(order), s_i, h]
+                if alg == "nonce":
+                    nonce = d.bytes(32)
+                    enc_env = dec_env = G.GroupKeyEnvelope(version=1, flags=2, l0=361, l1=3, l2=4, root_key_identifier=d.uuid(), kdf_algorithm="SP800_108_CTR_HMAC", kdf_parameters=gkdi.pack_kdf_params(h),
+                                                           secret_algorithm="DH", secret_parameters=b"", private_key_length=512, public_key_length=2048, domain_name="", forest_name="", l1_key=b"", l2_key=l2seed)
+                    rnd, ref_kek, ref_info = nonce, gkdi.kek_nonce(h, l2seed, nonce), nonce
+                else:
+                    if alg == "DHsmall":
+                        salg, params, priv, pub, plen = "DH", gkdi.pack_dh_params(2, SMALL_P, SMALL_G), 16, 16, 2
+                    elif alg == "DH":
+                        salg, params, priv, pub, plen = "DH", gkdi.pack_dh_params(256, gkdi.RFC5114_P, gkdi.RFC5114_G), 512, 2048, 64
+                    else:
+                        c = ec.CURVES[alg.split("_")[1]]
+                        salg, params, priv, pub, plen = alg, b"", c.size * 8, c.size * 8, c.size
+                    x = gkdi.group_private_key(h, l2seed, salg, priv)
+                    if salg != "DH" and not 1 <= x < ec.CURVES[alg.split("_")[1]].n:
+                        continue
+                    gpub = gkdi.public_key(salg, params, x)
+                    common = dict(version=1, l0=361, l1=3, l2=4, root_key_identifier=uuid_const, kdf_algorithm="SP800_108_CTR_HMAC", kdf_parameters=gkdi.pack_kdf_params(h), secret_algorithm=salg,
+                                  secret_parameters=params, private_key_length=priv, public_key_length=pub, domain_name="", forest_name="")
+                    enc_env = G.GroupKeyEnvelope(flags=1, l1_key=b"", l2_key=gpub, **common)
+                    dec_env = G.GroupKeyEnvelope(flags=2, l1_key=b"", l2_key=l2seed, **common)
+                    e = 3 + int.from_bytes(d.bytes(plen), "big") % (SMALL_P - 5 if alg == "DHsmall" else 2 ** (8 * plen - 2))
+                    rnd = e.to_bytes(plen, "big")
+                    z, sh = gkdi.shared_secret(salg, e, gpub)
+                    ref_kek, ref_info = gkdi.kek_from_shared(h, z, sh), gkdi.public_key(salg, params, e)
+                try:
+                    kek_e, kek_d, kid, consumed = run_case(enc_env, dec_env, rnd)
+                except Exception as ex:  # noqa: BLE001
+                    acc.violate(f"exc.{type(ex).__name__}", case, {"exc": repr(ex)})
+                    continue
+                judge(acc, case, kek_e, kek_d, kid, consumed, ref_kek, ref_info if consumed else None)
+                n += 1
+    acc.ev(n)
+    acc.nt_counted(n)
+    acc.sample({"cross_hash": alg, "same L2 seed under": "all 24 orders of the 4 KDF hashes"})
+
+
+import uuid as _uuid
+
+uuid_const = _uuid.UUID("11111111-2222-3333-4444-555555555555")
+
+
 def run_shard(shard, tier, seed, acc) -> None:
     import dpapi_ng._gkdi as G
 
     kind = shard[0]
+    if kind == "xhash":
+        shard_xhash(G, shard[1], seed, acc)
+        return
     if kind == "nonce":
         shard_nonce(G, shard[1], seed, acc)
     elif kind == "dhsmall":
@@ -243,6 +299,14 @@ def replay(case, seed, acc) -> None:
 
     k = case[0]
     acc.ev()
+    if k == "xhash":
+        shard_xhash(G, case[1], seed, acc)
+        for kk in list(acc.violations):
+            acc.violations[kk] = [e for e in acc.violations[kk] if e["case"] == case]
+            if not acc.violations[kk]:
+                del acc.violations[kk]
+        acc.violation_count = sum(len(v) for v in acc.violations.values())
+        return
     if k == "nonce":
         shard_nonce(G, case[1], seed, acc)
     elif k in ("dhsmall",):
